@@ -22,7 +22,7 @@ def nk (j : Nat) (l : List Out) : Nat := l.countP (Out.reports j)
 
 /-- is this output a PDU of message `j` handed to the transport (first transmission or not)? -/
 def Out.writes (j : Nat) : Out → Bool
-  | .tx _ _ (some i) => i == j
+  | .tx _ _ (some i) _ => i == j
   | _ => false
 
 /-- how often message `j` is written in a trace -/
